@@ -40,7 +40,9 @@ enum Mode {
 }
 
 struct Ctx<'a> {
+    #[allow(dead_code)]
     r: &'a Report,
+    mv: &'a retrysym::MinViolations,
     syms: &'a [Sym],
     mode: Mode,
     idem: bool,
@@ -268,7 +270,7 @@ fn visit_one(cx: &Ctx, acc: &mut Acc, script: &mut Vec<usize>, parent: Option<&O
     let o = match vcore::catch(std::panic::AssertUnwindSafe(|| run_case(cx, script))) {
         Ok(o) => o,
         Err(p) => {
-            cx.r.violation("loop:panic", &format!("the execution loop panicked on {}: {p}", cx.case_json(script)), cx.case_json(script));
+            cx.mv.add("loop:panic", script.len(), format!("the execution loop panicked on {}: {p}", cx.case_json(script)), cx.case_json(script));
             return;
         }
     };
@@ -285,10 +287,16 @@ fn visit_one(cx: &Ctx, acc: &mut Acc, script: &mut Vec<usize>, parent: Option<&O
         }
         acc.validated += 1;
     }
+    let complaints = judge(cx, script, &o);
     if !root_quiet {
-        for (k, t) in judge(cx, script, &o) {
-            cx.r.violation(&k, &format!("{t} | case {}", cx.case_json(script)), cx.case_json(script));
+        for (k, t) in &complaints {
+            cx.mv.add(k, script.len() + cx.no_conn.len(), format!("{t} | case {}", cx.case_json(script)), cx.case_json(script));
         }
+    }
+    // a script on which the loop already misbehaves is not extended (its extensions say nothing new, and a loop
+    // that no longer stops would blow the tree up)
+    if !complaints.is_empty() {
+        return;
     }
     if !o.wanted_more {
         if !root_quiet {
@@ -301,7 +309,7 @@ fn visit_one(cx: &Ctx, acc: &mut Acc, script: &mut Vec<usize>, parent: Option<&O
     }
     if script.len() >= cx.cap {
         if let (Mode::Real(pol), false) = (cx.mode, root_quiet) {
-            cx.r.violation("loop:attempts-exceed-bound", &format!("the loop asked for attempt {} with plan length {} and {} policy | case {}", script.len() + 1, cx.no_conn.len(), pol.name(), cx.case_json(script)), cx.case_json(script));
+            cx.mv.add("loop:attempts-exceed-bound", script.len() + cx.no_conn.len(), format!("the loop asked for attempt {} with plan length {} and {} policy | case {}", script.len() + 1, cx.no_conn.len(), pol.name(), cx.case_json(script)), cx.case_json(script));
         }
         return;
     }
@@ -323,7 +331,8 @@ fn replay(r: &Report, syms: &[Sym], case: &Value) {
     };
     let cl0 = Cl::ALL.into_iter().find(|c| Some(c.name()) == case["cl0"].as_str()).unwrap_or_else(|| vcore::machinery_error("replay: bad cl0"));
     let no_conn: Vec<bool> = case["no_conn"].as_array().map(|a| a.iter().map(|v| v.as_bool().unwrap_or(false)).collect()).unwrap_or_default();
-    let cx = Ctx { r, syms, mode, idem: case["idempotent"].as_bool().unwrap_or(false), cl0, no_conn, cap: 99 };
+    let mv = retrysym::MinViolations::default();
+    let cx = Ctx { r, mv: &mv, syms, mode, idem: case["idempotent"].as_bool().unwrap_or(false), cl0, no_conn, cap: 99 };
     let script: Vec<usize> = case["script"]
         .as_array()
         .unwrap_or_else(|| vcore::machinery_error("replay: no script"))
@@ -381,6 +390,8 @@ fn main() {
     }
     r.counters.add("work_items", items.len() as u64);
     let r_ref = &r;
+    let mv = retrysym::MinViolations::default();
+    let mv_ref = &mv;
     vcore::par::for_each(r.args.jobs, 4, items.into_iter(), |(mode, idem, cl0, no_conn, s, s1)| {
         let p = no_conn.len();
         let syms_ref = if p <= full_p { &syms_full[..] } else { &syms_class[..] };
@@ -388,7 +399,7 @@ fn main() {
             Mode::Real(_) => p + 3,
             Mode::Scripted => (p + 3).min(r_ref.tier().pick(5, 6)),
         };
-        let cx = Ctx { r: r_ref, syms: syms_ref, mode, idem, cl0, no_conn, cap };
+        let cx = Ctx { r: r_ref, mv: mv_ref, syms: syms_ref, mode, idem, cl0, no_conn, cap };
         let mut acc = Acc::default();
         // work is split by the first two symbols: the one-symbol run is judged and counted by the item with s1 == 0
         let mut script = vec![s];
@@ -409,6 +420,7 @@ fn main() {
         }
         r_ref.counters.max(&format!("max_attempts:{tag}:p{p}"), acc.max_attempts);
     });
+    mv.flush(&r);
     // vacuity: the real policies must reach plan length + their same-target bound, and every result kind must occur
     for (pol, b) in [(Policy::Default, 2usize), (Policy::Downgrading, 1), (Policy::Fallthrough, 0)] {
         let got = r.counters.get(&format!("max_attempts:{}:p{max_p}", pol.name()));
